@@ -219,6 +219,25 @@ func structOf(t types.Type) *types.Struct {
 	return s
 }
 
+// materializeAt builds a fresh symbolic value for the location (typ, path),
+// honouring `atomic` declarations of the holder struct.
+func (e *Exec) materializeAt(root types.Type, path []int, name string) Value {
+	typ := typeAtPath(root, path)
+	if typ == nil {
+		return nil
+	}
+	if len(path) > 0 {
+		holder := typeAtPath(root, path[:len(path)-1])
+		if hs := structOf(holder); hs != nil {
+			f := hs.Field(path[len(path)-1])
+			if at, ok := e.atomicType(holder, f); ok {
+				return VIface{Nil: False, Dyn: at, Val: e.materialize(name+".v", at), Typ: f.Type()}
+			}
+		}
+	}
+	return e.materialize(name, typ)
+}
+
 // fieldOf returns the i-th field value of a struct value, materialising it.
 func (e *Exec) fieldOf(v Value, i int) Value {
 	vs, ok := v.(VStruct)
@@ -360,11 +379,17 @@ func (e *Exec) readElem(st *State, r *Region, idx T, path []int, typ types.Type)
 		if k == "" {
 			k = "_"
 		}
-		ln := Select(e.regArr(st, r, k+".len", BV64), idx)
-		cp := Select(e.regArr(st, r, k+".cap", BV64), idx)
-		nilc := Select(e.regArr(st, r, k+".nil", BoolSort), idx)
-		e.addAxiom(And(BVCmp("bvsle", BVConst(64, 0), ln), BVCmp("bvsle", ln, cp),
-			BVCmp("bvslt", cp, BVConst(64, 1<<maxLenBits)), Implies(nilc, Eq(cp, BVConst(64, 0)))))
+		lnA, cpA, nilA := e.regArr(st, r, k+".len", BV64), e.regArr(st, r, k+".cap", BV64), e.regArr(st, r, k+".nil", BoolSort)
+		ln := Select(lnA, idx)
+		cp := Select(cpA, idx)
+		nilc := Select(nilA, idx)
+		if !strings.Contains(lnA.S, " ") && !strings.Contains(cpA.S, " ") && !strings.Contains(nilA.S, " ") {
+			// every element of a pre-state slice-of-slices is a well-formed slice
+			q := Sym("k!ax", BV64)
+			l, c, n := Select(lnA, q), Select(cpA, q), Select(nilA, q)
+			e.addAxiom(Forall([]T{q}, And(BVCmp("bvsle", BVConst(64, 0), l), BVCmp("bvsle", l, c),
+				BVCmp("bvslt", c, BVConst(64, 1<<maxLenBits)), Implies(n, Eq(c, BVConst(64, 0)))), l))
+		}
 		name := fmt.Sprintf("%s[%s].%s", r.Name, idx.S, k)
 		var dr *Region
 		if ok {
